@@ -384,12 +384,36 @@ int main(void) {
 '''
 
 
+LD_NESTING = r'''
+#include <stdio.h>
+#define P(label, e) do { long double r_ = (e); printf(label " %La\n", r_); } while (0)
+static long double ldid(long double x) { return x; }
+int main(void) {
+  volatile long double a = 1.25L, b = 2.5L, c = -0.75L, d = 1e10L;
+  P("add-right-8", a + (b + (c + (d + (a + (b + (c + (d + a))))))));
+  P("add-right-9", a + (b + (c + (d + (a + (b + (c + (d + (a + b)))))))));
+  P("add-right-12", a + (b + (c + (d + (a + (b + (c + (d + (a + (b + (c + (d + a))))))))))));
+  P("mul-right-10", a * (b * (c * (b * (a * (b * (c * (b * (a * (b * c))))))))));
+  P("sub-right-10", a - (b - (c - (d - (a - (b - (c - (d - (a - (b - c))))))))));
+  P("div-right-9", d / (b / (a / (b / (a / (b / (a / (b / (a / b)))))))));
+  P("mixed-right-11", a + b * (c - d / (a + b * (c - d / (a + b * (c - d / (a + b * c)))))));
+  P("cmp-right-9", (long double)(a < (b + (c + (d + (a + (b + (c + (d + (a + b))))))))));
+  P("call-right-9", a + (b + (c + (d + (a + (b + (c + (d + (a + ldid(b))))))))));
+  P("cond-right-9", a + (b + (c + (d + (a + (b + (c + (d + (a < b ? a + b : c)))))))));
+  P("left-12", ((((((((((a + b) + c) + d) + a) + b) + c) + d) + a) + b) + c) + d);
+  return 0;
+}
+'''
+
+
 def run(ctx):
     cc = ctx.build('plain')
     work = ctx.tmpdir('c02')
     rng = ctx.rng
     # <float.h> must describe the three formats the emitted arithmetic really uses
     core.header_probe(ctx, cc, work, 'float_h', FLOAT_H, 'C02|float.h|%s')
+    # long double operands nested to the right: nine and more values wait for their partner at the same time (the x87 stack holds eight)
+    core.header_probe(ctx, cc, work, 'ld_nesting', LD_NESTING, 'C02|long-double-nesting|%s')
     T = tables(rng)
     comp_c = os.path.join(work, 'vals.c')
     open(comp_c, 'w').write(companion(T))
